@@ -85,6 +85,10 @@ var schedAssumptions = append([]string{
 }, commonAssumptions...)
 
 var specs = []spec{
+	{ID: "C09", Pkg: ".", Level: "model_checking", Instrument: true, Procs: 1,
+		AtomicRanges: []string{"clientStreamProcessorMPEGTS.joinTrackProcessors"},
+		Rule:        "end-to-end runs in one synctest bubble under the controlled scheduler: a writer thread paces a 9 s word (regular GOPs; a parameter change and an extra key frame; sparse key frames) on the virtual clock into a real Muxer, a real Client attached at 2.6 / 4.3 / 5.9 s reads it through an in-process transport that serves every request in its own thread; 12 muxer configurations (MPEG-TS, fMP4, Low-Latency x H264/H265/VP9/AV1/AAC/Opus, audio-before-video with named / default renditions, audio-only) x entry point {multivariant, leading media playlist} x three canonical schedules, every schedule within 0 (quick) / 1 (thorough) deviations; distinct = distinct (scenario, tracks, delivered units, end)",
+		Assumptions: schedAssumptions},
 	{ID: "C12", Pkg: ".", Level: "model_checking", Instrument: true, Procs: 1,
 		AtomicRanges: []string{"clientStreamProcessorMPEGTS.joinTrackProcessors"},
 		Rule:        "delay-bounded schedule enumeration (every non-default decision costs one; bound 1 quick / 2 thorough, one more with two closers) of the real Client against the scripted transport: streams {fMP4 one playlist, fMP4 video + audio rendition, MPEG-TS, Low-Latency with preload hints} x fault {none, 404, 500, transport error, body that stalls until cancelled, OnTracks error} at every request index x {no Close, Close by a concurrent thread whose single step is thereby placed at every decision point, two Close calls}; distinct = distinct (stream, fault, end, closed-before-end, callback count/4)",
